@@ -257,8 +257,10 @@ def run(a):
                      "VLog model; cases = op sequences from one `reset`; exhaustive short sequences over a 6-key pool + seeded random sequences over an "
                      "adversarial key pool + a directed family that fills the value log to the arena block boundaries (4 KiB, then doubling), stages values that spill "
                      "into the next block and reads exactly those keys through every snapshot path, history and stage inspection; a direct differential of the "
-                     "radix tree's node containers (n* ops: addChild/findChild/replaceChild/iteration across 4/16/48/256 in several insertion orders); property ops: cleanup/revert view oracle, snapshot-ignores-staged oracle, evaluated per tree")
-    c.assumptions = ["radix-tree path logic (prefix compression, in-place leaves) and the red-black tree are not modelled (tied only by the differential); the node4/16/48/256 containers are (Model/ArtNode.lean)",
+                     "radix tree's node containers (n* ops: addChild/findChild/replaceChild/iteration across 4/16/48/256 in several insertion orders); a structure "
+                     "differential of the whole radix tree (tdump/tsearch/tkeys; `paths` family: shared prefixes of 0..40 bytes around the 20-byte bound, keys ending "
+                     "inside a prefix, all node sizes on one path) and red-black invariants checked on the real RBT (rbtchk); property ops: cleanup/revert view oracle, snapshot-ignores-staged oracle, evaluated per tree")
+    c.assumptions = ["the red-black tree is not modelled (its invariants are checked on the real tree by rbtchk); the radix tree is: node containers (Model/ArtNode.lean) and path logic (Model/ArtTree.lean, structure differential tdump); iterator seek with bounds is differential-only",
                      "vlog addresses are modelled as log indices; arena block arithmetic is covered by the differential only (values crossing the 4 KiB block)",
                      "RevertToCheckpoint is only issued for checkpoints at or above the top staging mark and not beyond the current log end (other uses loop on garbage headers)",
                      "sequence-number invalidation (iterator after write, stale GetSnapshot) exists only in ART; those ops observe ART only"]
